@@ -27,7 +27,7 @@ from pathlib import Path
 
 METHODS = ['set_enabled', 'run_jobs', '_set_timer', 'add_job', 'remove_job', 'update_job']
 RCALL = {'_set_timer': 'r_set_timer', 'run_jobs': 'r_run_jobs', 'add_job': 'r_add_job', 'remove_job': 'r_remove_job'}
-NOT_TRANSLATED = ['__init__', '__repr__', 'remove_all']
+NOT_TRANSLATED = ['__init__', '__repr__', 'remove_all']     # __init__: tools/gen_init.py, remove_all: tools/gen_removeall.py
 
 
 class Unrecognised(Exception):
